@@ -65,6 +65,47 @@ pub fn install_panic_hook() {
     }));
 }
 
+/// A logger that accepts every record and *formats* it into nothing.  `log` macros evaluate their arguments
+/// only when a logger wants the record; the code under test must be observed with its logging statements live
+/// (a slice or an unwrap inside a `debug!` argument is code like any other).
+struct FormatSink;
+struct Null;
+impl std::fmt::Write for Null {
+    fn write_str(&mut self, _: &str) -> std::fmt::Result {
+        Ok(())
+    }
+}
+impl log::Log for FormatSink {
+    fn enabled(&self, _: &log::Metadata) -> bool {
+        true
+    }
+    fn log(&self, record: &log::Record) {
+        // the argument *expressions* of the log statement have been evaluated by now (that is what matters most);
+        // formatting them as well is done for every 32nd record per thread: the library hex-dumps the rest of the
+        // buffer per tag, which would make every decode quadratic.
+        use std::fmt::Write;
+        let n = LOG_COUNT.with(|c| {
+            let v = c.get().wrapping_add(1);
+            c.set(v);
+            v
+        });
+        if n % 32 == 0 {
+            let _ = write!(Null, "{}", record.args());
+        }
+    }
+    fn flush(&self) {}
+}
+static SINK: FormatSink = FormatSink;
+thread_local! {
+    static LOG_COUNT: std::cell::Cell<u64> = const { std::cell::Cell::new(0) };
+}
+
+pub fn install_log_sink() {
+    if log::set_logger(&SINK).is_ok() {
+        log::set_max_level(log::LevelFilter::Trace);
+    }
+}
+
 pub fn clear_last_panic() {
     LAST_PANIC.with(|p| *p.borrow_mut() = None);
 }
@@ -865,6 +906,35 @@ pub fn run_types(threads_max: usize, seed: u64, report: &mut Report, schema: &Sc
                     other_packets.push(b.clone());
                 }
                 if prop.has(Prop::C01) || prop.has(Prop::C03) {
+                    // interference: a few hostile decodes on the same thread between the cases, so that state a failed
+                    // decode may leave behind (caches, thread-locals, counters) meets the next valid value
+                    if rng.chance(1, 3) && !b.is_empty() {
+                        for _ in 0..1 + rng.below(3) {
+                            let mut bad = b.clone();
+                            match rng.below(4) {
+                                0 => {
+                                    let cut = rng.below(bad.len() as u64) as usize;
+                                    bad.truncate(cut);
+                                }
+                                1 => {
+                                    let i = rng.below(bad.len() as u64) as usize;
+                                    bad[i] = rng.byte();
+                                }
+                                2 => {
+                                    let i = rng.below(bad.len() as u64) as usize;
+                                    let tail = bad[i..].to_vec();
+                                    bad.extend(tail);
+                                }
+                                _ => {
+                                    let i = rng.below(bad.len() as u64) as usize;
+                                    bad[i] = 0x99;
+                                    bad.push(0x99);
+                                }
+                            }
+                            let _ = sut.decode(&def.key, &bad);
+                            r.count("interference_decodes", 1);
+                        }
+                    }
                     engine.base_case(sut.as_mut(), r, def, &v, &b, focus.as_deref());
                 } else {
                     engine.record_coverage(r, def, &v, &b);
